@@ -49,6 +49,13 @@ structure FileSem where
   window : Out → Out → Out
   vba : Out
   metadata : Out
+  /-- is this result of a range read an `Err(..)` (the lazy readers' `worksheets()` drops such sheets: `.ok()?`) -/
+  failed : Out → Bool := (fun _ => false)
+  /-- `load_merged_regions()` on this file: `none` = `Ok(())`; `some e` = the error it returns (a `mergeCell` whose
+      `ref` does not parse …) — the cache is then left unset, as if the call had not been made -/
+  loadMergedErr : Option Out := none
+  /-- `load_tables()` on this file, likewise -/
+  loadTablesErr : Option Out := none
 
 structure State where
   hdr : Hdr := .firstNonEmpty
@@ -98,10 +105,12 @@ def FileSem.formula (F : FileSem) (name : String) : Out :=
 /-- `worksheet_range`: the owned path is the ref path converted cell by cell -/
 def rangeOut (F : FileSem) (h : Hdr) (name : String) : Out := F.toOwned (F.rangeRef name h)
 
-/-- `worksheets()`: every sheet name with its range under the option in force -/
+/-- `worksheets()`: every sheet name with its range under the option in force; a sheet whose read fails has no
+    entry (`filter_map(|n| self.worksheet_range(&n).ok()…)`) -/
 def worksheetsOut (F : FileSem) (h : Hdr) : Out :=
   let h' := if F.eager then .firstNonEmpty else h
-  "&".intercalate (F.sheets.map fun n => n ++ "=" ++ rangeOut F h' n)
+  "&".intercalate (F.sheets.filterMap fun n =>
+    if F.failed (rangeOut F h' n) then none else some (n ++ "=" ++ rangeOut F h' n))
 
 /-- one public call: new state and observable result -/
 def step (F : FileSem) (s : State) : Op → State × Out
@@ -114,10 +123,14 @@ def step (F : FileSem) (s : State) : Op → State × Out
   | .worksheets => (s, worksheetsOut F s.hdr)
   | .formula name => (s, F.formula name)
   | .mergeCells name => (s, F.mergeCells name)
-  | .loadMerged => ({ s with mergedLoaded := true }, "unit")
+  | .loadMerged => (match F.loadMergedErr with
+      | none => ({ s with mergedLoaded := true }, "unit")
+      | some e => (s, e))
   | .mergedRegions => (s, if s.mergedLoaded then F.mergedAll else notLoaded)
   | .mergedBySheet name => (s, if s.mergedLoaded then F.mergedBySheet name else notLoaded)
-  | .loadTables => ({ s with tablesLoaded := true }, "unit")
+  | .loadTables => (match F.loadTablesErr with
+      | none => ({ s with tablesLoaded := true }, "unit")
+      | some e => (s, e))
   | .tableNames => (s, if s.tablesLoaded then F.tableNames else notLoaded)
   | .tableByName name => (s,
       if s.tablesLoaded then
@@ -153,11 +166,12 @@ def isLoadTables : Op → Bool
   | .loadTables => true
   | _ => false
 
-/-- the state a history leads to, computed without looking at any read -/
-def stateAfter (s : State) (ops : List Op) : State :=
+/-- the state a history leads to, computed without looking at any read: the last option set, and whether a load
+    was called that this file lets succeed -/
+def stateAfter (F : FileSem) (s : State) (ops : List Op) : State :=
   { hdr := hdrAfter s.hdr ops,
-    mergedLoaded := s.mergedLoaded || ops.any isLoadMerged,
-    tablesLoaded := s.tablesLoaded || ops.any isLoadTables }
+    mergedLoaded := s.mergedLoaded || (F.loadMergedErr.isNone && ops.any isLoadMerged),
+    tablesLoaded := s.tablesLoaded || (F.loadTablesErr.isNone && ops.any isLoadTables) }
 
 /-- the result of a call on a *freshly opened* reader brought to the same option/loaded flags:
     by definition a function of the file, the call and those three settings only -/
